@@ -216,6 +216,7 @@ type slabT struct {
 	udp   *net.UDPAddr
 	tcp   *net.TCPAddr
 	n     int
+	last  *dns.Msg
 }
 
 func (t *slabT) LocalAddr() net.Addr { return &net.TCPAddr{IP: net.IPv4(127, 0, 0, 1), Port: 53} }
@@ -225,7 +226,7 @@ func (t *slabT) RemoteAddr() net.Addr {
 	}
 	return t.tcp
 }
-func (t *slabT) WriteMsg(*dns.Msg) error     { t.n++; return nil }
+func (t *slabT) WriteMsg(m *dns.Msg) error   { t.n++; t.last = m; return nil }
 func (t *slabT) Write(b []byte) (int, error) { t.n++; return len(b), nil }
 func (t *slabT) Close() error                { return nil }
 
@@ -600,6 +601,69 @@ func exec(op string) vlib.Res {
 			or = "FAIL sig=ident/network-peer-treated-as-internal"
 		}
 		return vlib.Res{Impl: fmt.Sprintf("proto=%s internal=%s", ch.Writer.Proto(), vlib.B(internal)), Oracle: or, Tags: "nt"}
+	case "views slab":
+		// views slab <proto> <addr,addr,…> <qtype>: ONE chain [views, stub] and ONE
+		// transport object carried through several peers (udp: the address is
+		// rewritten in place, as the datagram job does). Each query is answered
+		// from the view of ITS source.
+		qt := typeByName[f[4]]
+		t := &slabT{proto: f[2]}
+		st := &stub{}
+		ch := middleware.NewChain([]middleware.Handler{curViews, st})
+		var outs []string
+		or := "ok"
+		for _, as := range strings.Split(f[3], ",") {
+			a := parseAddr(as)
+			ip := net.IP(a.AsSlice())
+			if f[2] == "udp" {
+				if t.udp == nil {
+					t.udp = &net.UDPAddr{IP: make(net.IP, 0, 16)}
+				}
+				t.udp.IP = append(t.udp.IP[:0], ip...)
+				t.udp.Port = 4242
+			} else {
+				t.tcp = &net.TCPAddr{IP: ip, Port: 4242}
+			}
+			t.n, t.last = 0, nil
+			before := st.calls
+			req := new(dns.Msg)
+			req.SetQuestion("x.viewzone.", qt)
+			ch.Reset(t, req)
+			ch.Next(context.Background())
+			got := "none"
+			if st.calls == before && t.last != nil && len(t.last.Answer) == 1 {
+				switch rr := t.last.Answer[0].(type) {
+				case *dns.A:
+					got = fmt.Sprint(int(rr.A.To4()[3]))
+				case *dns.AAAA:
+					got = fmt.Sprint(int(rr.AAAA[15]))
+				case *dns.TXT:
+					got = strings.TrimPrefix(rr.Txt[0], "v")
+				}
+			}
+			want := "none"
+			for i, es := range viewEnts {
+				if naive(es, a) {
+					for _, ty := range viewTypes[i] {
+						if ty == qt {
+							want = fmt.Sprint(i + 1)
+						}
+					}
+					break
+				}
+			}
+			if got != want && or == "ok" {
+				or = fmt.Sprintf("FAIL sig=views/slab/answered-from-another-sources-view want=%s got=%s", want, got)
+			}
+			outs = append(outs, got)
+		}
+		return vlib.Res{Impl: "view=" + strings.Join(outs, ","), Oracle: or, Tags: "nt"}
+	case "live run":
+		// live run <ents> <peer,peer,…> <hdr>: the REAL server.Server with real UDP
+		// and TCP sockets (source 127.0.0.1) and its DoH handler (peers as given),
+		// over recovery → accesslist → edns → stub. hdr: - | xff | xri | fwd — a
+		// forwarding header naming an ALLOWED address, which must not matter.
+		return liveRun(f[2], strings.Split(f[3], ","), f[4])
 	case "sub query":
 		// Internal sub-queries bypass every client-only policy: a
 		// pipeline whose access list denies everything (and whose rate
@@ -802,6 +866,32 @@ func genAddr(r *vlib.R, pool []netip.Prefix) string {
 
 func gen(r *vlib.R, n int, tier string, emit func(string)) {
 	emit("sub query 5")
+	// real sockets and the real DoH handler: a few lists that do / do not
+	// contain the loopback source, DoH peers in and out, forwarding headers
+	lives := 4
+	if tier == "thorough" {
+		lives = 16
+	}
+	for i := 0; i < lives; i++ {
+		l, pool := genList(r, 4)
+		if r.Chance(1, 2) {
+			if l == "-" {
+				l = "4:7f000000/8"
+			} else {
+				l += ",4:7f000000/8"
+			}
+			pool = append(pool, netip.MustParsePrefix("127.0.0.0/8"))
+		}
+		if l == "-" {
+			l = "4:0a000000/8"
+			pool = append(pool, netip.MustParsePrefix("10.0.0.0/8"))
+		}
+		var peers []string
+		for j, m := 0, 2+r.Intn(3); j < m; j++ {
+			peers = append(peers, genAddr(r, pool))
+		}
+		emit(fmt.Sprintf("live run %s %s %s", l, strings.Join(peers, ","), vlib.Pick(r, []string{"-", "xff", "xri", "fwd"})))
+	}
 	for n > 0 {
 		switch k := r.Intn(10); {
 		case k < 6:
@@ -925,7 +1015,14 @@ func gen(r *vlib.R, n int, tier string, emit func(string)) {
 			for i := 0; i < q; i++ {
 				emit(fmt.Sprintf("views serve %s %s %s", genAddr(r, pool), vlib.B(r.Chance(1, 8)), vlib.Pick(r, []string{"a", "aaaa", "txt"})))
 			}
-			n -= q + 1
+			for k := 0; k < 2; k++ {
+				var as []string
+				for j, m := 0, 2+r.Intn(5); j < m; j++ {
+					as = append(as, genAddr(r, pool))
+				}
+				emit(fmt.Sprintf("views slab %s %s %s", vlib.Pick(r, []string{"udp", "udp", "tcp"}), strings.Join(as, ","), vlib.Pick(r, []string{"a", "aaaa", "txt"})))
+			}
+			n -= q + 3
 		}
 	}
 }
